@@ -185,15 +185,31 @@ func (env *Zlisp) comparePair(a *SexpPair, b Sexp) (int, error) {
 		errmsg := fmt.Sprintf("err 96: cannot compare %T to %T", a, b)
 		return 0, errors.New(errmsg)
 	}
-	res, err := env.Compare(a.Head, bp.Head)
-	if err != nil {
-		return 0, err
+	// walk along the two lists in a loop: recursing on the tails made the
+	// depth guard of Compare count the LENGTH of a list as nesting, so two
+	// lists of more than maxCompareDepth elements could not be compared.
+	// (A list whose tail leads back into itself is stopped by the step bound.)
+	for steps := 0; ; steps++ {
+		if steps > maxCompareListLength {
+			return 0, fmt.Errorf("comparison of lists longer than %d elements (self-referential list?)", maxCompareListLength)
+		}
+		res, err := env.Compare(a.Head, bp.Head)
+		if err != nil {
+			return 0, err
+		}
+		if res != 0 {
+			return res, nil
+		}
+		atail, aIsPair := a.Tail.(*SexpPair)
+		btail, bIsPair := bp.Tail.(*SexpPair)
+		if !aIsPair || !bIsPair {
+			return env.Compare(a.Tail, bp.Tail)
+		}
+		a, bp = atail, btail
 	}
-	if res != 0 {
-		return res, nil
-	}
-	return env.Compare(a.Tail, bp.Tail)
 }
+
+const maxCompareListLength = 1 << 26
 
 func (env *Zlisp) compareArray(a *SexpArray, b Sexp) (int, error) {
 	var ba *SexpArray
